@@ -13,6 +13,7 @@ from hypothesis import strategies as st
 
 from refs import sdof_exact as sx
 from vlib import util
+from vlib import defaults
 from vlib.core import Part
 
 PROPERTY = "C03"
@@ -1043,4 +1044,7 @@ PARTS = [
     Part("linroll", oracle_linroll, strategy=linroll_cases, quick=(1, 60), thorough=(2, 400)),
     # psd.interp(linear=False), used by vrs, returns ln(PSD) for a frequency one ulp outside the specification
     Part("vrs_edge", oracle_vrs, strategy=lambda: vrs_cases(edge=True), quick=(1, 30), thorough=(1, 200)),
+    # documented defaults: leaving a keyword out = passing its documented value (vlib/defaults.py)
+    Part("defaults", defaults.make_oracle("C03"), enum=defaults.make_enum(), quick=(1, None), thorough=(1, None),
+         exhaustive=True),
 ]
